@@ -25,9 +25,11 @@ static ssize_t rd(int fd, char *buf, size_t len)
   }
   return k;
 }
+static size_t write_limit; /* > 0: the network takes at most this many bytes per write() (short counts, which POSIX permits) */
 static ssize_t wr(int fd, const char *buf, size_t len)
 {
   (void) fd;
+  if (write_limit && len > write_limit) len = write_limit;
   if (wire_len + len > sizeof wire) { printf("HARNESS wire overflow\n"); h_real_exit(2); }
   memcpy(wire + wire_len, buf, len); wire_len += len;
   return len;
@@ -39,7 +41,7 @@ static ssize_t repwr(int fd, const char *buf, size_t len)
   return len;
 }
 
-static long n_eval, n_nontrivial, n_abort, n_ok, n_chunked, n_readfail;
+static long n_eval, n_nontrivial, n_abort, n_ok, n_chunked, n_readfail, n_shortwr;
 static h_set distinct_wire;
 
 /* returns 1 if blast() returned, 0 if it exited */
@@ -141,6 +143,7 @@ int main(int argc, char **argv)
         for (c = 1; c < (1UL << (n - 1)); c++) { chunkmask = c; n_chunked++; check_case(m, n, "chunked"); }
         chunkmask = 0;
       }
+      if (n <= maxchunk + 2) { write_limit = 1; check_case(m, n, "1-byte writes"); write_limit = 3; check_case(m, n, "3-byte writes"); write_limit = 0; n_shortwr += 2; }
       if (n <= maxchunk) {
         int f;
         for (f = 0; f <= n; f++) { read_fail_at = f; check_case(m, n, "readfail"); }
@@ -148,8 +151,8 @@ int main(int argc, char **argv)
       }
     } while (h_odo_next(idx, n, k));
   }
-  printf("STAT evaluations=%ld distinct_nontrivial=%ld inputs=%ld chunked_runs=%ld readfail_runs=%ld completed=%ld aborted=%ld distinct_wire_outputs=%zu\n",
-         n_eval, n_nontrivial, tot, n_chunked, n_readfail, n_ok, n_abort, distinct_wire.n);
+  printf("STAT evaluations=%ld distinct_nontrivial=%ld inputs=%ld chunked_runs=%ld readfail_runs=%ld completed=%ld aborted=%ld short_write_runs=%ld distinct_wire_outputs=%zu\n",
+         n_eval, n_nontrivial, tot, n_chunked, n_readfail, n_ok, n_abort, n_shortwr, distinct_wire.n);
   fflush(stdout);
   h_real_exit(h_nfail ? 1 : 0);
 }
